@@ -66,7 +66,8 @@ def make_cases(seed: int, tier: str, n_cases: int | None = None) -> list[dict]:
         cases.append(
             {
                 "index": idx, "case_seed": cs, "verif_seed": seed, "pkg": pkg, "options": options,
-                "params": {"tier": tier, "sigma": sigma, "n_crash": 1 if tier == "quick" else 3},
+                "params": {"tier": tier, "sigma": sigma, "n_crash": 1 if tier == "quick" else 3,
+                           "crash_all": tier != "quick" and idx % 24 == 1 and "CORPUS" not in pkg.get("features", [])},
                 "histories": [[c_step], [{"sigma": sigma}]],
                 "planned": False,
             },
@@ -86,6 +87,18 @@ def plan_e_histories(case: dict, ref: dict) -> list[list[dict]]:
     if e is not None:
         kind = r.choice(ERROR_KINDS[e["op"]])
         hs.append([{"sigma": sigma, "faults": [{"sel": engine.selector_for(e), "kind": kind}]}, {"sigma": sigma}])
+    if case["params"].get("crash_all"):
+        # exhaustive stratum: process death at EVERY mkdir/touch/open/close and at the first and last write of every file
+        for cls in sorted(strata):
+            for f in strata[cls]:
+                for op in engine.FAULT_OPS:
+                    evs = f["events"].get(op) or []
+                    if op == "write" and len(evs) > 2:
+                        evs = [evs[0], evs[-1]]
+                    for e in evs:
+                        kind = "torn_crash" if op == "write" else "crash"
+                        hs.append([{"sigma": sigma, "faults": [{"sel": engine.selector_for(e), "kind": kind}]}, {"sigma": sigma}])
+        return hs
     for _ in range(case["params"].get("n_crash", 1)):
         e = engine.pick_fault_event(r, strata)
         if e is None:
@@ -294,6 +307,7 @@ def run_case(case: dict, parallel: int = 1) -> dict:
         first_outcomes=[h[0]["outcome"] for h in rest],
         events=sum(s.get("events", 0) for s in e_steps),
         histories=len(rest),
+        crash_all=1 if case["params"].get("crash_all") else 0,
     )
     return verdict
 
@@ -319,7 +333,7 @@ ASSUMPTIONS = [
 def coverage(cases: list[dict], verdicts: list[dict], tier: str, wall: float) -> dict:
     sigs: set = set()
     nt: set = set()
-    tot = {"runs": 0, "ops": 0, "gens": 0, "second_renderings": 0, "inherit_members_compared": 0, "events": 0, "histories": 0}
+    tot = {"runs": 0, "ops": 0, "gens": 0, "second_renderings": 0, "inherit_members_compared": 0, "events": 0, "histories": 0, "crash_all": 0}
     fired: dict = {}
     configured: dict = {}
     second: dict = {}
@@ -359,6 +373,7 @@ def coverage(cases: list[dict], verdicts: list[dict], tier: str, wall: float) ->
         "second_renderings_compared": tot["second_renderings"],
         "inherited_member_probes_compared": tot["inherit_members_compared"],
         "run_histories": tot["histories"],
+        "cases_with_every_crash_point_enumerated": tot["crash_all"],
         "logical_steps_mutation_events": tot["events"],
         "fault_kinds_configured": configured,
         "fault_kinds_fired": fired,
